@@ -34,6 +34,9 @@ class _T(ast.NodeTransformer):
         if "astype" in self.hooks and isinstance(f, ast.Attribute) and f.attr == "astype":
             self._hit("astype")
             return ast.copy_location(ast.Call(func=ast.Name("_sx_astype", ast.Load()), args=[f.value] + node.args, keywords=node.keywords), node)
+        if "view" in self.hooks and isinstance(f, ast.Attribute) and f.attr == "view":
+            self._hit("view")
+            return ast.copy_location(ast.Call(func=ast.Name("_sx_view", ast.Load()), args=[f.value] + node.args, keywords=node.keywords), node)
         if "join" in self.hooks and isinstance(f, ast.Attribute) and f.attr == "join" and len(node.args) == 1 and not node.keywords:
             self._hit("join")
             return ast.copy_location(ast.Call(func=ast.Name("_sx_join", ast.Load()), args=[f.value] + node.args, keywords=[]), node)
